@@ -89,12 +89,27 @@ SetRunning(b) ==
   /\ evt' = [k |-> "run"]
   /\ UNCHANGED <<acct, hx, raised>>
 
+\* Market._set_time: the clock jumps several steps at once (JumpSizes is {} unless a model overrides it)
+JumpSizes == {}
+Jump(k) ==
+  /\ mkt.clock + k <= MaxClock
+  /\ mkt' = MJump(mkt, mkt.clock + k, P0)
+  /\ LET gone == Expired(mkt.live, mkt.clock + k) IN
+     acct' = [i \in 1..Len(acct) |->
+                IF InBook(gone, i - 1)
+                THEN [acct[i] EXCEPT !.term = ExpiredT, !.tat = mkt.clock + k, !.tvol = ById(gone, i - 1).vol]
+                ELSE acct[i]]
+  /\ hx' = [hx EXCEPT !.vol = 0, !.tot = 0, !.nB = 0, !.nS = 0]
+  /\ evt' = [k |-> "jump", by |-> k]
+  /\ UNCHANGED raised
+
 SubmitAny == \E isBuy \in BOOLEAN, isMo \in BOOLEAN, req \in ReqPrices, vol \in Vols, ttl \in TTLs :
                /\ (isMo => req = CHOOSE x \in ReqPrices : TRUE)      \* price irrelevant for market orders
                /\ Submit(isBuy, isMo, req, vol, ttl)
 Next == \/ SubmitAny
         \/ \E id \in 0..(MaxOrders - 1) : CancelOrder(id)
         \/ Tick
+        \/ \E k \in JumpSizes : Jump(k)
         \/ DoMatch
         \/ \E b \in BOOLEAN : SetRunning(b)
 Spec == Init /\ [][Next]_vars
@@ -124,7 +139,7 @@ AcctInv ==
 LifetimeInv ==
   /\ \A o \in mkt.live : o.ttl # 0 => mkt.clock <= o.t0 + o.ttl          \* gone once the clock has passed t0+ttl
   /\ \A id \in 0..(mkt.nextId - 1) : LET a == acct[id + 1] IN            \* ... and not earlier
-        a.term = ExpiredT => (a.ttl # 0 /\ a.tat = a.t0 + a.ttl + 1)
+        a.term = ExpiredT => (a.ttl # 0 /\ a.tat >= a.t0 + a.ttl + 1 /\ (JumpSizes = {} => a.tat = a.t0 + a.ttl + 1))
 IdsInv == /\ Len(acct) = mkt.nextId
           /\ \A o \in mkt.live : o.id < mkt.nextId /\ o.t0 <= mkt.clock
           /\ \A o, p \in mkt.live : o.id = p.id => o = p
@@ -139,9 +154,24 @@ LeavesExactly ==
   [][evt'.k = "tick" =>
        \A o \in mkt.live : (o \notin mkt'.live) <=> (o.ttl # 0 /\ o.t0 + o.ttl = mkt.clock)]_vars
 
+\* a clock jump removes exactly the orders whose life ended before the new time (and no fill ever reaches them later:
+\* FillOnlyLive / LifetimeInv hold across jumps as well)
+LeavesAtJump ==
+  [][evt'.k = "jump" =>
+       \A o \in mkt.live : (o \notin mkt'.live) <=> (o.ttl # 0 /\ o.t0 + o.ttl < mkt'.clock)]_vars
+\* ... records nothing for the steps it skips, resets the per-step statistics and leaves the price of a halted market alone
+JumpRow ==
+  [][evt'.k = "jump" =>
+       /\ \A t \in (mkt.clock + 2)..mkt'.clock : mkt'.hist[t] = SkipRow
+       /\ mkt'.hist[mkt.clock + 1] = mkt.row
+       /\ mkt'.row.eVol = 0 /\ mkt'.row.eTot = 0 /\ mkt'.row.nB = 0 /\ mkt'.row.nS = 0
+       /\ mkt'.row.last = mkt.row.last]_vars
+
 \* ------------------------------------------------------------------ C06 (single market)
 HistoryImmutable == [][IsPrefix(mkt.hist, mkt'.hist)]_vars
-ClockStep == [][mkt'.clock = mkt.clock \/ (evt'.k = "tick" /\ mkt'.clock = mkt.clock + 1)]_vars
+ClockStep == [][\/ mkt'.clock = mkt.clock
+                \/ (evt'.k = "tick" /\ mkt'.clock = mkt.clock + 1)
+                \/ (evt'.k = "jump" /\ mkt'.clock = mkt.clock + evt'.by /\ evt'.by >= 2)]_vars
 HistLen == Len(mkt.hist) = mkt.clock
 
 \* ------------------------------------------------------------------ C08
